@@ -1,4 +1,3 @@
-set_option linter.unusedSimpArgs false
 /-
   C04 — TCP request/response framing is lossless, exact and bounded.
   Property theorems only; helper lemmas live in Hy.Proofs.Frame.
@@ -9,6 +8,7 @@ set_option linter.unusedSimpArgs false
   chunking, empty reads included).
 -/
 import Hy.Proofs.Frame
+set_option linter.unusedSimpArgs false
 namespace Hy.Props.C04
 open Hy Hy.Frame Hy.Varint
 
